@@ -23,12 +23,27 @@
 #define WRAP_TIME
 #include "hcommon.h"
 #include <unistd.h>
+#include <fcntl.h>
+
+/* Result lines go to the ORIGINAL stdout through g_out; fd 1 itself is pointed at /dev/null in
+   main() because the library prints trace / psAssert text to stdout, which would break the
+   one-line-per-case protocol. */
+static FILE *g_out;
+#define printf(...) fprintf(g_out, __VA_ARGS__)
+#define puthex puthex_out
+static void puthex_out(const unsigned char *b, size_t l)
+{
+    if (l == 0 || b == NULL) { fputs("-", g_out); return; }
+    for (size_t i = 0; i < l; i++) fprintf(g_out, "%02x", b[i]);
+}
 
 /* ------------------------------------------------------------------ allocation table (ptr -> size) */
 void *__real_malloc(size_t); void *__real_calloc(size_t, size_t); void *__real_realloc(void *, size_t); void __real_free(void *);
 #define TBL (1u << 18)
-static struct { void *p; size_t n; } g_tbl[TBL];
+static struct { void *p; size_t n; unsigned seq; } g_tbl[TBL];
+static unsigned g_seq = 0;
 static long g_live = 0;
+static unsigned g_tomb = 0;
 static int g_track = 1;
 static unsigned hp(void *p) { uintptr_t x = (uintptr_t) p; x ^= x >> 17; x *= 0x9E3779B97F4A7C15ull; return (unsigned) (x >> 40) & (TBL - 1); }
 static void tbl_put(void *p, size_t n)
@@ -36,7 +51,10 @@ static void tbl_put(void *p, size_t n)
     if (!p || !g_track) return;
     unsigned i = hp(p), k;
     for (k = 0; k < TBL; k++, i = (i + 1) & (TBL - 1))
-        if (g_tbl[i].p == NULL || g_tbl[i].p == (void *) 1 || g_tbl[i].p == p) { g_tbl[i].p = p; g_tbl[i].n = n; g_live++; return; }
+        if (g_tbl[i].p == NULL || g_tbl[i].p == (void *) 1 || g_tbl[i].p == p) {
+            if (g_tbl[i].p == (void *) 1 && g_tomb) g_tomb--;
+            g_tbl[i].p = p; g_tbl[i].n = n; g_tbl[i].seq = g_seq; g_live++; return;
+        }
 }
 static long tbl_get(const void *p)          /* -1: unknown */
 {
@@ -48,13 +66,36 @@ static long tbl_get(const void *p)          /* -1: unknown */
     }
     return -1;
 }
+/* tombstones make every probe sequence longer; rebuild the table when they pile up */
+static void tbl_rebuild(void)
+{
+    size_t n = 0, i;
+    struct { void *p; size_t n; unsigned seq; } *tmp;
+    for (i = 0; i < TBL; i++) if (g_tbl[i].p != NULL && g_tbl[i].p != (void *) 1) n++;
+    tmp = __real_malloc((n + 1) * sizeof *tmp);
+    if (!tmp) return;
+    n = 0;
+    for (i = 0; i < TBL; i++) if (g_tbl[i].p != NULL && g_tbl[i].p != (void *) 1) { tmp[n].p = g_tbl[i].p; tmp[n].n = g_tbl[i].n; tmp[n].seq = g_tbl[i].seq; n++; }
+    memset(g_tbl, 0, sizeof g_tbl);
+    g_tomb = 0;
+    for (i = 0; i < n; i++) {
+        unsigned j = hp(tmp[i].p);
+        while (g_tbl[j].p != NULL) j = (j + 1) & (TBL - 1);
+        g_tbl[j].p = tmp[i].p; g_tbl[j].n = tmp[i].n; g_tbl[j].seq = tmp[i].seq;
+    }
+    __real_free(tmp);
+}
 static void tbl_del(void *p)
 {
     if (!p || !g_track) return;
     unsigned i = hp(p), k;
     for (k = 0; k < TBL; k++, i = (i + 1) & (TBL - 1)) {
         if (g_tbl[i].p == NULL) return;
-        if (g_tbl[i].p == p) { g_tbl[i].p = (void *) 1; g_live--; return; }
+        if (g_tbl[i].p == p) {
+            g_tbl[i].p = (void *) 1; g_live--;
+            if (++g_tomb > TBL / 8) tbl_rebuild();
+            return;
+        }
     }
 }
 void *__wrap_malloc(size_t n) { void *p = __real_malloc(n); tbl_put(p, n); return p; }
@@ -72,6 +113,7 @@ static unsigned char *exact(const char *h, size_t *len)
 }
 
 /* ------------------------------------------------------------------ consistency walker */
+static int g_budget_s = 10;
 static int g_bad; static char g_why[200];
 static void bad(const char *w) { if (!g_bad) { snprintf(g_why, sizeof g_why, "%s", w); } g_bad++; }
 /* (ptr,len): len bytes must lie inside the allocation of ptr (when ptr is a known heap block) */
@@ -145,6 +187,9 @@ static void walk_cert(const psX509Cert_t *c)
 {
     int n = 0;
     for (; c && n < 1000; c = c->next, n++) {
+        /* "on success the object is consistent": a bundle loaded with CERT_ALLOW_BUNDLE_PARTIAL_PARSE keeps
+           the certificates that failed to parse in the list, marked by parseStatus; they are only to be freed */
+        if (c->parseStatus != PS_X509_PARSE_SUCCESS) continue;
         chk_len(c->signature, c->signatureLen, "signature");
         chk_len(c->serialNumber, c->serialNumberLen, "serial");
         walk_dn(&c->issuer, "issuer-dn"); walk_dn(&c->subject, "subject-dn");
@@ -321,7 +366,7 @@ static void op_whole(void)
         int32 flags = (g_ntok > 2) ? atoi(g_tok[2]) : 0;
         if (pass) { free(pass); free(pw); pass = NULL; pw = NULL; live0 = g_live; }
         rc = !strcmp(op, "cert") ? psX509ParseCert(NULL, b, (uint32) n, &c, flags) : psX509ParseCertData(NULL, b, n, &c, flags);
-        walk_cert(c);
+        if (rc >= 0) walk_cert(c);
         psX509FreeCert(c);
     }
 #ifdef USE_CRL
@@ -369,7 +414,7 @@ static void op_whole(void)
     else if (!strcmp(op, "p12")) {
         psX509Cert_t *c = NULL; psPubKey_t k; memset(&k, 0, sizeof k);
         rc = psPkcs12ParseMem(NULL, &c, &k, b, (int32) n, 0, (unsigned char *) pass, (int32) pn, (unsigned char *) pass, (int32) pn);
-        walk_cert(c);
+        if (rc >= 0) walk_cert(c);
         psX509FreeCert(c); psClearPubKey(&k);
     }
 #endif
@@ -403,16 +448,36 @@ static void op_whole(void)
             matrixSslDeleteKeys(keys);
         }
     } else { printf("BADCASE\n"); goto out; }
-    printf("rc=%s C=%d L=%ld%s%s\n", rc >= 0 ? "ok" : "fail", g_bad ? 0 : 1, g_live - live0, g_bad ? " why=" : "", g_bad ? g_why : "");
+    printf("rc=%s C=%d L=%ld%s%s", rc >= 0 ? "ok" : "fail", g_bad ? 0 : 1, g_live - live0, g_bad ? " why=" : "", g_bad ? g_why : "");
+    if (g_live - live0 > 0) {       /* sizes of the blocks allocated during this case and still live */
+        int shown = 0;
+        printf(" leaked=");
+        for (size_t i = 0; i < TBL && shown < 8; i++)
+            if (g_tbl[i].p != NULL && g_tbl[i].p != (void *) 1 && g_tbl[i].seq == g_seq && g_tbl[i].p != (void *) b && g_tbl[i].p != (void *) pass && g_tbl[i].p != (void *) pw)
+                { printf("%s%zu", shown ? "," : "", g_tbl[i].n); shown++; }
+    }
+    printf("\n");
 out:
     free(b); if (pass) free(pass); if (pw) free(pw);
 }
 
+#include <signal.h>
+static void on_alarm(int sig)
+{
+    static const char m[] = "\nVERIF-TIMEOUT: case exceeded its time budget\n";
+    (void) sig; (void) !write(2, m, sizeof m - 1); _exit(97);
+}
+
 int main(void)
 {
+    int fd = dup(1), nul = open("/dev/null", O_WRONLY);
+    g_out = fdopen(fd, "w");
+    if (nul >= 0) dup2(nul, 1);
+    signal(SIGALRM, on_alarm);
     if (matrixSslOpen() < 0) { fprintf(stderr, "matrixSslOpen failed\n"); return 2; }
     while (next_case()) {
         const char *op = g_ntok ? g_tok[0] : "";
+        alarm(g_budget_s); g_seq++;
         if (g_ntok < 2) printf("BADCASE\n");
         else if (!strcmp(op, "gn") && g_ntok >= 4) op_gn();
         else if (!strcmp(op, "dn")) op_dn();
@@ -422,7 +487,7 @@ int main(void)
         else if (!strcmp(op, "len16") || !strcmp(op, "seq16") || !strcmp(op, "set16") || !strcmp(op, "int") || !strcmp(op, "enum") ||
                  !strcmp(op, "algid") || !strcmp(op, "taglen")) op_prim();
         else op_whole();
-        fflush(stdout);
+        fflush(g_out);
     }
     return 0;
 }
